@@ -17,6 +17,7 @@ CONSTANTS
   StartConnected = TRUE
   Grid = 5
   TrackKA = TRUE
+  NAddrs = {1}
   SubKinds = {"A"}
 SPECIFICATION MCSpec
 VIEW mcview
